@@ -261,8 +261,14 @@ def graph_walk(gwy, max_zones):
         for ch in getattr(par, "childs", []):
             if getattr(ch, "_parent", None) is not par:
                 bad.append(("child-listed-by-a-parent-that-is-not-its-parent", f"{getattr(ch, 'id', ch)} is in {par}.childs, its own parent is {getattr(ch, '_parent', None)}"))
+    known = {id(x) for x in parents}
     for d in gwy.devices:
         p = getattr(d, "_parent", None)
+        if p is not None and id(p) not in known and not d.id.startswith("02:") and type(p).__name__ not in ("UfhController", "HvacVentilator"):
+            # the converse: a device's parent is an entity the gateway's systems know (a system, one of its zones, its hot water), and it lists the device
+            bad.append(("device-parent-is-not-an-entity-of-its-system", f"{d.id}: parent {p} is none of the systems / zones / hot-water entities the gateway holds"))
+        elif p is not None and id(p) in known and d not in getattr(p, "childs", [d]):
+            bad.append(("child-not-listed-by-its-parent", f"{d.id}: parent {p} does not list it"))
         ctl = getattr(d, "ctl", None)
         if p is not None and ctl is not None and getattr(p, "ctl", ctl) is not ctl and not d.id.startswith("02:"):
             bad.append(("device-controller-differs-from-its-parents", f"{d.id}: ctl {ctl.id}, parent {p}"))
@@ -453,6 +459,12 @@ def run(ctx: Ctx) -> None:
                    f"{t0}05.000000 045 RP --- 01:145038 18:111111 --:------ 000C 006 020B003608D5",     # zone 02 actuator: relay 13:133333
                    f"{t0}06.000000 045 RP --- 01:145038 18:111111 --:------ 000C 006 0204003608D5",     # ... said to be its sensor: refused
                    f"{t0}07.000000 045  I --- 01:145038 --:------ 01:145038 30C9 003 0107D0"], "crafted-sensor-is-a-child-already", "crafted", {}))
+    # the FIRST message ever routed to a zone that does not exist yet is refused part-way (its second device belongs to another zone): whatever it
+    # attached before the refusal hangs on a zone the system knows, and a later, consistent reply is not an inconsistency
+    hists.append(([f"{t0}00.000000 045 RP --- 01:145038 18:111111 --:------ 000C 006 000800100001",           # zone 00 actuator: 04:000001
+                   f"{t0}01.000000 045 RP --- 01:145038 18:111111 --:------ 000C 012 010800100002010800100001",  # zone 01 (new): 04:000002, then zone 00's TRV: refused
+                   f"{t0}02.000000 045 RP --- 01:145038 18:111111 --:------ 000C 006 010800100002",           # zone 01: 04:000002 again
+                   f"{t0}03.000000 045  I --- 01:145038 --:------ 01:145038 30C9 003 0107D0"], "crafted-zone-created-by-a-refused-message", "crafted", {}))
     hists += [(base, "verbatim", name, cfg) for name, base, cfg in syss]
     for lines, kind, name, cfg in hists:
         eav = rng.random() < 0.5 if not kind.startswith("crafted") else False
